@@ -730,7 +730,7 @@ public:
                      "AbstractHmmTransitionMatrix::sample: path length, state range and reproducibility only; the law of the sampled path (initial state from the equilibrium frequencies) belongs to C13 and is not asserted here"};
     return i;
   }
-  long defaultRuns(Tier t) const override { return t == QUICK ? 16000 : 400000; }
+  long defaultRuns(Tier t) const override { return t == QUICK ? 40000 : 400000; }
   bool nontrivial(const Ctx& c) const override { return c.okSteps >= 2 && c.faultsFired >= 2; }
 
   // ---- systematic prefix: every pair of margin vectors with 2..3 rows/columns and total <= 12 (zeros included)
